@@ -358,7 +358,7 @@ pub fn gen_world(r: &mut Rng) -> Vec<Tree> {
     let steps = r.range(25, 90);
     // half of the histories are built around one adversarial scenario, played early (while the state is simple) and once
     // more later; the other half mixes everything
-    let focus: Option<usize> = if r.chance(1, 2) { Some(*r.pick(&[18usize, 19, 20, 21, 22, 23, 24, 25, 26, 8, 12])) } else { None };
+    let focus: Option<usize> = if r.chance(1, 2) { Some(*r.pick(&[18usize, 19, 20, 21, 22, 23, 24, 25, 26, 27, 28, 8, 12])) } else { None };
     for step in 0..steps {
         let k = r.below(nclients as u64);
         let id = ids[k as usize];
@@ -375,7 +375,7 @@ pub fn gen_world(r: &mut Rng) -> Vec<Tree> {
                 (r.range(1, 4), r.below(12000), r.below(256))
             }
         };
-        let w: [u32; 28] = [14, 16, 14, 3, 3, 6, 9, 9, 5, 2, 2, 2, 3, 3, 3, 2, 10, 2, 2, 3, 4, 3, 4, 3, 2, 3, 4, 3];
+        let w: [u32; 30] = [14, 16, 14, 3, 3, 6, 9, 9, 5, 2, 2, 2, 3, 3, 3, 2, 10, 2, 2, 3, 4, 3, 4, 3, 2, 3, 4, 3, 1, 3];
         let case = match focus {
             Some(f) if step == 3 || step == 14 => f,
             _ => r.weighted(&w),
@@ -529,6 +529,34 @@ pub fn gen_world(r: &mut Rng) -> Vec<Tree> {
                 ops.push(l(vec![n(155u8), n(k), n(k), n(r.range(0, 300))]));
             }
             23 => ops.push(l(vec![n(158u8), n(k), n(r.range(0, 300)), b(&r.bytes(300))])),
+            27 => {
+                // the edge of the replay window: 255 to 257 payloads are generated, the newest arrives first, then the ones
+                // that lag by 254, 255 (still inside the window) and 256 (outside)
+                ops.push(l(vec![n(170u8), n(k), n(3u8)]));
+                let total = r.range(256, 258);
+                for _ in 0..total {
+                    ops.push(l(vec![n(105u8), n(k), b(&r.bytes(3))]));
+                }
+                ops.push(l(vec![n(150u8), n(k), n(0u8), n(0u8), n(0u8), n(0u8)]));
+                for back in [254u64, 255, 256, 255] {
+                    ops.push(l(vec![n(150u8), n(k), n(back), n(0u8), n(0u8), n(0u8)]));
+                }
+            }
+            28 => {
+                // traffic that crosses the end of a session: the client leaves (or is told to), payloads sealed for it arrive later
+                ops.push(l(vec![n(170u8), n(k), n(3u8)]));
+                ops.push(l(vec![n(114u8), n(id), b(&r.bytes(20))]));
+                ops.push(l(vec![n(114u8), n(id), b(&r.bytes(0))]));
+                if r.chance(1, 2) {
+                    ops.push(l(vec![n(106u8), n(k)]));
+                } else {
+                    ops.push(l(vec![n(113u8), n(id)]));
+                    ops.push(l(vec![n(152u8), n(k), n(0u8), n(0u8), n(0u8), n(0u8)]));
+                }
+                ops.push(l(vec![n(152u8), n(k), n(1u8), n(0u8), n(0u8), n(0u8)]));
+                ops.push(l(vec![n(152u8), n(k), n(2u8), n(0u8), n(0u8), n(0u8)]));
+                ops.push(l(vec![n(107u8), n(k)]));
+            }
             26 => {
                 // a token sealed for a protocol id that differs from the server's in one bit (another version of the
                 // game, the same key), whose request is then presented with that bit of the public field set right
